@@ -1,0 +1,210 @@
+//go:build verif
+
+// Contracts for govc (/verif): C34 custodian updates are accepted only in canonical, fully signed form.
+// Comment-only file. common/custodian.go.
+
+package common
+
+// Layout of one 353-byte node entry (custodianNodeExtraSize):
+//   [0] action = 1 | [1,33) custodian spend | [33,65) custodian view | [65,97) payee spend | [97,129) payee view |
+//   [129,161) node id | [161,225) signer signature | [225,289) payee signature | [289,353) custodian signature
+// The payee and custodian signatures are over Blake3(entry[0:161]).
+
+// KeyAt / SigAt: the array value IS the 32 / 64 bytes of b at offset off. `window(s, N)` is the [N]byte value made of the
+// first N bytes of s (zero beyond, as every array the code fills by copying into a zeroed array): a quantifier-free equation.
+// KeyAtR / SigAtR: the same byte-wise, for arrays that are not built by the function under contract (encoder inputs).
+//@ spec KeyAt(k crypto.Key, b []byte, off int) bool = k == window(b[off:off+32], 32)
+//@ spec SigAt(sg crypto.Signature, b []byte, off int) bool = sg == window(b[off:off+64], 64)
+//@ spec KeyAtR(k crypto.Key, b []byte, off int) bool = forall i int :: 0 <= i && i < 32 ==> k[i] == b[off + i]
+//@ spec SigAtR(sg crypto.Signature, b []byte, off int) bool = forall i int :: 0 <= i && i < 64 ==> sg[i] == b[off + i]
+
+// NodeKeysParsed: the four keys of the node are the bytes of its own entry at the documented offsets.
+//@ spec NodeKeysParsed(cn *CustodianNode) bool = len(cn.Extra) == custodianNodeExtraSize && cn.Extra[0] == custodianNodeActionUpdate &&
+//@     KeyAt(cn.Custodian.PublicSpendKey, cn.Extra, 1) && KeyAt(cn.Custodian.PublicViewKey, cn.Extra, 33) &&
+//@     KeyAt(cn.Payee.PublicSpendKey, cn.Extra, 65) && KeyAt(cn.Payee.PublicViewKey, cn.Extra, 97)
+
+// NodeSigned: payee and custodian spend keys differ and both signed Blake3(entry[:161]) with the signatures stored in the entry.
+//@ spec NodeSigned(cn *CustodianNode) bool = cn.Payee.PublicSpendKey != cn.Custodian.PublicSpendKey &&
+//@     crypto.SigValid(cn.Payee.PublicSpendKey, crypto.Blake3Bytes(cn.Extra[:161]), window(cn.Extra[225:289], 64)) &&
+//@     crypto.SigValid(cn.Custodian.PublicSpendKey, crypto.Blake3Bytes(cn.Extra[:161]), window(cn.Extra[289:353], 64))
+
+//@ func (cn *CustodianNode) validate
+//@   property C34, C05
+//@   requires cn != nil && len(cn.Extra) == custodianNodeExtraSize
+//@   modifies nothing
+//@   ensures [signed] err == nil ==> NodeSigned(cn)
+//@   ensures [complete] NodeSigned(cn) ==> err == nil
+
+// parseCustodianNode: total on arbitrary bytes; accepts exactly 353 bytes starting with the update action; the node owns a
+// byte-for-byte copy of the entry, its keys are the bytes at the documented offsets, and (outside genesis) it is signed.
+//@ spec SameBytes(a []byte, b []byte) bool = len(a) == len(b) && (forall i int :: 0 <= i && i < len(a) ==> a[i] == b[i])
+
+//@ func parseCustodianNode
+//@   property C34, C05
+//@   modifies nothing
+//@   ensures [shape] err == nil ==> len(extra) == custodianNodeExtraSize && extra[0] == custodianNodeActionUpdate
+//@   ensures [node] err == nil ==> result0 != nil && fresh(result0) && SameBytes(result0.Extra, extra) && NodeKeysParsed(result0)
+//@   ensures [alloc] err == nil ==> allocated(result0) && allocated(result0.Extra) && fresh(result0.Extra)
+//@   ensures [signed] err == nil && !genesis ==> NodeSigned(result0)
+//@   ensures [reject] err != nil ==> result0 == nil
+//@   ensures [input-kept] forall i int :: 0 <= i && i < len(extra) ==> extra[i] == old(extra[i])
+
+// ───────────── ParseCustodianUpdateNodesExtra ─────────────
+// extra = custodian address (64) || n entries of 353 bytes || approval signature (64), n >= 7.
+
+//@ spec KeyMarked(m map[crypto.Key]bool, k crypto.Key) bool = has(m, k) && m[k]
+//@ spec NodeKeysMarked(m map[crypto.Key]bool, n *CustodianNode) bool = KeyMarked(m, n.Payee.PublicSpendKey) && KeyMarked(m, n.Payee.PublicViewKey) &&
+//@     KeyMarked(m, n.Custodian.PublicSpendKey) && KeyMarked(m, n.Custodian.PublicViewKey)
+// the uniqueness rule of the parser: the spend keys of a later entry occur nowhere (as spend or view key) in an earlier entry
+//@ spec KeyNotIn(k crypto.Key, a *CustodianNode) bool = k != a.Payee.PublicSpendKey && k != a.Payee.PublicViewKey &&
+//@     k != a.Custodian.PublicSpendKey && k != a.Custodian.PublicViewKey
+//@ spec NodesDistinct(a *CustodianNode, b *CustodianNode) bool = KeyNotIn(b.Payee.PublicSpendKey, a) && KeyNotIn(b.Custodian.PublicSpendKey, a)
+// ... which, read in both directions, says: the four spend keys of two different entries are pairwise different
+//@ spec SpendKeysDisjoint(a *CustodianNode, b *CustodianNode) bool = a.Custodian.PublicSpendKey != b.Custodian.PublicSpendKey &&
+//@     a.Payee.PublicSpendKey != b.Payee.PublicSpendKey && a.Payee.PublicSpendKey != b.Custodian.PublicSpendKey && a.Custodian.PublicSpendKey != b.Payee.PublicSpendKey
+//@ spec NodeShape(n *CustodianNode) bool = n != nil && len(n.Extra) == custodianNodeExtraSize
+
+//@ func ParseCustodianUpdateNodesExtra$1
+//@   property C34, C05
+//@   requires 0 <= i && i < len(nodes) && 0 <= j && j < len(nodes) && nodes[i] != nil && nodes[j] != nil
+//@   pure
+//@   ensures result <==> lexlt(nodes[i].Custodian.PublicSpendKey, nodes[j].Custodian.PublicSpendKey)
+
+// How the proof goes.  Loop 0 (parse): every parsed node is a new object; its facts (NodeKeysParsed, NodeSigned, keys marked in
+// uniqueKeys, distinct from the earlier nodes) are loop invariants over nodes[0..rangeindex].  sort.Slice permutes the pointers: the
+// `hint after Slice` clauses re-establish the per-node facts for the permuted slice (once).  Loop 1 (re-encode) only appends to
+// sortedExtra, a block that did not exist when the loop was entered: [kept] says that every block that existed then is unchanged
+// (loopentry(E) = E in the state in which the loop was entered), so nothing about the nodes has to be restated.  bytes.Equal then
+// identifies the input entries with the Extra of the SORTED nodes ([entries]).
+//@ func ParseCustodianUpdateNodesExtra
+//@   property C34, C05
+//@   modifies nothing
+//@   -- [chunks] is stated with the literal numbers of the rule (64 + 7 * 353 + 64 = 2599), not with the constants of the code
+//@   ensures [chunks] err == nil ==> len(extra) >= 2599 && (len(extra) - 128) % 353 == 0 && result0 != nil && len(result0.Nodes) * 353 == len(extra) - 128
+//@   ensures [shape] err == nil ==> result0.Custodian != nil && result0.Signature != nil &&
+//@       (forall k int :: {result0.Nodes[k]} 0 <= k && k < len(result0.Nodes) ==> NodeShape(result0.Nodes[k]))
+//@   ensures [nodes] err == nil ==> (forall k int :: {result0.Nodes[k]} 0 <= k && k < len(result0.Nodes) ==> NodeKeysParsed(result0.Nodes[k]))
+//@   ensures [alloc] err == nil ==> (forall k int :: {result0.Nodes[k]} 0 <= k && k < len(result0.Nodes) ==> allocated(result0.Nodes[k]) && allocated(result0.Nodes[k].Extra))
+//@       -- the returned objects exist in the state returned to the caller (lets callers frame their own loops with loopentry)
+//@   ensures [unique] err == nil ==> (forall a, b int :: {result0.Nodes[a], result0.Nodes[b]} 0 <= a && a < len(result0.Nodes) && 0 <= b && b < len(result0.Nodes) && a != b ==>
+//@       SpendKeysDisjoint(result0.Nodes[a], result0.Nodes[b]))
+//@   ensures [signed] err == nil && !genesis ==> (forall k int :: {result0.Nodes[k]} 0 <= k && k < len(result0.Nodes) ==> NodeSigned(result0.Nodes[k]))
+//@   ensures [sorted] err == nil ==> (forall a, b int :: {result0.Nodes[a], result0.Nodes[b]} 0 <= a && a < b && b < len(result0.Nodes) ==>
+//@       !lexlt(result0.Nodes[b].Custodian.PublicSpendKey, result0.Nodes[a].Custodian.PublicSpendKey))
+//@   ensures [entries] err == nil ==> (forall k, j int :: {result0.Nodes[k].Extra[j]} 0 <= k && k < len(result0.Nodes) && 0 <= j && j < custodianNodeExtraSize ==>
+//@       extra[64:len(extra)-64][custodianNodeExtraSize * k + j] == result0.Nodes[k].Extra[j]) -- byte j of entry k of the entries area extra[64:len-64]
+//@   ensures [custodian] err == nil ==> KeyAt(result0.Custodian.PublicSpendKey, extra, 0) && KeyAt(result0.Custodian.PublicViewKey, extra, 32)
+//@   ensures [approval-sig] err == nil ==> SigAt(*result0.Signature, extra, len(extra) - 64)
+//@   ensures [input-kept] forall i int :: 0 <= i && i < len(extra) ==> extra[i] == old(extra[i])
+//@   ensures [reject] err != nil ==> result0 == nil
+//@   loop 0 invariant len(nodes) * custodianNodeExtraSize == len(nodesExtra) && len(nodesExtra) == len(extra) - 128 && len(extra) >= 2599
+//@   loop 0 invariant forall k int :: {nodes[k]} 0 <= k && k <= rangeindex ==> NodeShape(nodes[k]) && allocated(nodes[k]) && allocated(nodes[k].Extra)
+//@   loop 0 invariant forall k int :: {nodes[k]} 0 <= k && k <= rangeindex ==> NodeKeysParsed(nodes[k]) && (!genesis ==> NodeSigned(nodes[k]))
+//@   loop 0 invariant forall k int :: {nodes[k]} 0 <= k && k <= rangeindex ==> NodeKeysMarked(uniqueKeys, nodes[k])
+//@   loop 0 invariant forall a, b int :: {nodes[a], nodes[b]} 0 <= a && a < b && b <= rangeindex ==> NodesDistinct(nodes[a], nodes[b])
+//@   hint after Slice [perm-shape] forall k int :: {nodes[k]} 0 <= k && k < len(nodes) ==> NodeShape(nodes[k]) && allocated(nodes[k]) && allocated(nodes[k].Extra)
+//@   hint after Slice [perm-nodes] forall k int :: {nodes[k]} 0 <= k && k < len(nodes) ==> NodeKeysParsed(nodes[k]) && (!genesis ==> NodeSigned(nodes[k]))
+//@   hint after Slice [perm-unique] forall a, b int :: {nodes[a], nodes[b]} 0 <= a && a < len(nodes) && 0 <= b && b < len(nodes) && a != b ==> SpendKeysDisjoint(nodes[a], nodes[b])
+//@   loop 1 invariant [kept] forall p *crypto.Key :: {*p} loopentry(allocated(p)) ==> *p == loopentry(*p)
+//@   loop 1 invariant [newblock] isnil(sortedExtra) || (fresh(sortedExtra) && !loopentry(allocated(sortedExtra)))
+//@   loop 1 invariant [nodes-old] forall k int :: {nodes[k]} 0 <= k && k < len(nodes) ==> NodeShape(nodes[k]) && loopentry(allocated(nodes[k]) && allocated(nodes[k].Extra))
+//@   hint return [entries-sorted] err == nil ==> (forall k, j int :: {nodes[k].Extra[j]} 0 <= k && k < len(nodes) && 0 <= j && j < custodianNodeExtraSize ==>
+//@       nodesExtra[custodianNodeExtraSize * k + j] == nodes[k].Extra[j])
+//@   hint at "sortedExtra = append(sortedExtra, n.Extra...)" [chunk-shape] n != nil && len(n.Extra) == custodianNodeExtraSize
+//@   loop 1 invariant [length] len(sortedExtra) == custodianNodeExtraSize * (rangeindex + 1)
+//@   -- [content]: sortedExtra is the concatenation of the Extra of nodes[0..rangeindex]. Written as two conjuncts (the chunk appended last /
+//@   -- the earlier chunks) so that the two cases of its preservation proof become two separate obligations.
+//@   loop 1 invariant [content] forall k, j int :: {nodes[k].Extra[j]} 0 <= k && k <= rangeindex && 0 <= j && j < custodianNodeExtraSize ==>
+//@       (k == rangeindex ==> sortedExtra[custodianNodeExtraSize * k + j] == nodes[k].Extra[j]) &&
+//@       (k != rangeindex ==> sortedExtra[custodianNodeExtraSize * k + j] == nodes[k].Extra[j])
+
+// ───────────── (*Transaction).validateCustodianUpdateNodes ─────────────
+// CurrentCustodian(store, ts): what the store answers for ReadCustodian(ts) during this validation (the store is not modelled).
+//@ uninterp CurrentCustodian(store CustodianReader, ts uint64) *CustodianUpdateRequest
+
+// ASSUMED (interface method): (CustodianReader).ReadCustodian — the assumed contract is in zz_contracts_c05_verif.go (S7, S8, S10 and
+// [S11-custodian-named] err == nil ==> result0 == CurrentCustodian(recv, ts), added for C34).
+//@ -- (recv CustodianReader) ReadCustodian(ts): contract in zz_contracts_c05_verif.go
+
+// ASSUMED: the textual forms are functions of the value only (base58/hex renderings; no state).
+//@ -- (a Address) String: contract in zz_contracts_c05_verif.go
+//@ -- (s Script) String: contract in zz_contracts_c05_verif.go
+
+// ASSUMED (integer.go, float64 math.Pow out of subset): NewInteger(x) is x units of 10^8.
+//@ -- NewInteger(x): contract in zz_contracts_c04_verif.go
+
+// ApprovalOK: the update carries a signature by `cust`'s spend key over Blake3(extra without its last 64 bytes), stored in those last 64 bytes.
+//@ spec ApprovalOK(cust *Address, extra []byte) bool = len(extra) >= 64 &&
+//@     crypto.SigValid(cust.PublicSpendKey, crypto.Blake3Bytes(extra[:len(extra)-64]), window(extra[len(extra)-64:], 64))
+
+// PrevHas(prev, s): some node of the current custodian record has custodian address (text) s.
+//@ spec PrevHas(prev *CustodianUpdateRequest, s string) bool = exists m int :: 0 <= m && m < len(prev.Nodes) && prev.Nodes[m].Custodian.String() == s
+// An entry is NEW when its custodian address is not among the current custodian nodes, CHANGED when it is but with another payee.
+//@ spec IsNew(prev *CustodianUpdateRequest, n *CustodianNode) bool = !PrevHas(prev, n.Custodian.String())
+//@ spec IsChanged(prev *CustodianUpdateRequest, n *CustodianNode) bool = exists m int :: 0 <= m && m < len(prev.Nodes) &&
+//@     prev.Nodes[m].Custodian.String() == n.Custodian.String() && prev.Nodes[m].Payee.String() != n.Payee.String()
+// Price(prev, curs, n): the price of the first n entries: 100 XIN per new entry, 1 XIN per changed entry (amounts in 10^-8 XIN).
+//@ rec Price(prev *CustodianUpdateRequest, curs *CustodianUpdateRequest, n int) mathint = n <= 0 ? 0 :
+//@     Price(prev, curs, n - 1) + (IsNew(prev, curs.Nodes[n - 1]) ? 10000000000 : (IsChanged(prev, curs.Nodes[n - 1]) ? 100000000 : 0))
+
+// Describes(curs, extra): curs is a parse of extra: n = (len(extra) - 128) / 353 entries, entry k is the 353 bytes at offset 353 k of the entries area extra[64:len-64],
+// and the keys of node k are the bytes of its own entry at the documented offsets.
+//@ spec Describes(curs *CustodianUpdateRequest, extra []byte) bool = curs != nil && len(curs.Nodes) * 353 == len(extra) - 128 &&
+//@     (forall k int :: {curs.Nodes[k]} 0 <= k && k < len(curs.Nodes) ==> NodeShape(curs.Nodes[k]) && NodeKeysParsed(curs.Nodes[k])) &&
+//@     (forall k, j int :: {curs.Nodes[k].Extra[j]} 0 <= k && k < len(curs.Nodes) && 0 <= j && j < 353 ==> extra[64:len(extra)-64][353 * k + j] == curs.Nodes[k].Extra[j])
+
+// CanonicalNodes(curs): the parsed entries are signed (payee and custodian signatures over Blake3(entry[:161]), payee != custodian), sorted
+// by custodian spend key (bytes.Compare order) and use pairwise different spend keys.
+//@ spec CanonicalNodes(curs *CustodianUpdateRequest) bool =
+//@     (forall k int :: {curs.Nodes[k]} 0 <= k && k < len(curs.Nodes) ==> NodeSigned(curs.Nodes[k])) &&
+//@     (forall a, b int :: {curs.Nodes[a], curs.Nodes[b]} 0 <= a && a < b && b < len(curs.Nodes) ==> !lexlt(curs.Nodes[b].Custodian.PublicSpendKey, curs.Nodes[a].Custodian.PublicSpendKey)) &&
+//@     (forall a, b int :: {curs.Nodes[a], curs.Nodes[b]} 0 <= a && a < len(curs.Nodes) && 0 <= b && b < len(curs.Nodes) && a != b ==> SpendKeysDisjoint(curs.Nodes[a], curs.Nodes[b]))
+
+// FilterOK: every key of the filter map is the custodian address of a current node and maps to that node's payee address.
+//@ spec FilterOK(filter map[string]string, prev *CustodianUpdateRequest) bool = forall s string :: {has(filter, s)} has(filter, s) ==>
+//@     (exists m int :: {prev.Nodes[m]} 0 <= m && m < len(prev.Nodes) && prev.Nodes[m].Custodian.String() == s && filter[s] == prev.Nodes[m].Payee.String())
+
+// The literal numbers in the top-level clauses are the rule (353-byte entries, at least 7 of them, 100 / 1 XIN): they are NOT
+// taken from the constants of the code, so that a changed constant is a violation.
+//@ func (tx *Transaction) validateCustodianUpdateNodes
+//@   property C34, C05
+//@   requires tx != nil && store != nil && OutputsOK(tx)
+//@   unreachable return@14 -- `len(curs.Nodes) < 7` cannot happen: the parser already rejected extras shorter than 64+7*353+64 bytes
+//@   modifies nothing
+//@   ensures [shape] err == nil ==> tx.Version >= TxVersionHashSignature && tx.Asset == XINAssetId && len(tx.Outputs) == 1 &&
+//@       tx.Outputs[0].Type == OutputTypeCustodianUpdateNodes && len(tx.Outputs[0].Keys) == 1
+//@   ensures [canonical] err == nil ==> len(tx.Extra) >= 64 + 353 * 7 + 64 && (len(tx.Extra) - 128) % 353 == 0
+//@   ensures [approval] err == nil ==> CurrentCustodian(store, now) != nil && ApprovalOK(CurrentCustodian(store, now).Custodian, tx.Extra)
+//@   -- [entries]: the update IS a list of signed, sorted, unique entries (curs: the parse of tx.Extra), and the amount covers their price
+//@   ensures [entries] err == nil ==> exists curs *CustodianUpdateRequest :: {curs.Nodes} Describes(curs, tx.Extra) && CanonicalNodes(curs) &&
+//@       val(tx.Outputs[0].Amount) >= Price(CurrentCustodian(store, now), curs, len(curs.Nodes))
+//@   hint return [entries-local] err == nil ==> Describes(curs, tx.Extra) && CanonicalNodes(curs) && val(out.Amount) >= Price(prev, curs, len(curs.Nodes))
+//@   -- the final "custodian account and nodes mismatch" rejection happens only for a real mismatch: the node count differs, or a current
+//@   -- custodian node is missing from the update (needs: the second loop deletes what it has seen)
+//@   hint at "return fmt.Errorf("custodian account and nodes mismatch %x", tx.Extra)" [mismatch-reason] len(prev.Nodes) != len(curs.Nodes) ||
+//@       (exists m int :: {prev.Nodes[m]} 0 <= m && m < len(prev.Nodes) && (forall k int :: {curs.Nodes[k]} 0 <= k && k < len(curs.Nodes) ==> curs.Nodes[k].Custodian.String() != prev.Nodes[m].Custodian.String()))
+//@   loop 0 invariant len(filter) == rangeindex + 1
+//@   loop 0 invariant forall j int :: rangeindex < j && j < len(prev.Nodes) ==> !has(filter, prev.Nodes[j].Custodian.String())
+//@   loop 0 invariant [filter] FilterOK(filter, prev)
+//@   loop 1 invariant [total] val(total) >= 0 && val(total) >= Price(prev, curs, rangeindex + 1)
+//@   loop 1 invariant [filter] FilterOK(filter, prev)
+//@   loop 1 invariant [deleted] forall s string, k int :: {has(filter, s), curs.Nodes[k]} has(filter, s) && 0 <= k && k <= rangeindex ==> curs.Nodes[k].Custodian.String() != s
+
+// ───────────── EncodeCustodianNode: the encoder writes the layout the parser reads ─────────────
+//@ -- (a Address) Hash: contract in zz_contracts_c30_verif.go
+
+//@ func EncodeCustodianNode
+//@   property C34
+//@   requires custodian != nil && payee != nil && signerSpend != nil && payeeSpend != nil && custodianSpend != nil
+//@   requires [signer-key] crypto.CanonicalScalar(seq(*signerSpend)) -- the signer's private spend key is a canonical scalar ((Key).Public panics otherwise); callers: the CLI command that builds a custodian update from the operator's own keys
+//@   modifies nothing
+//@   ensures [length] len(result) == custodianNodeExtraSize
+//@   ensures [action] result[0] == custodianNodeActionUpdate
+//@   ensures [custodian-spend] KeyAtR(custodian.PublicSpendKey, result, 1)
+//@   ensures [custodian-view] KeyAtR(custodian.PublicViewKey, result, 33)
+//@   ensures [payee-spend] KeyAtR(payee.PublicSpendKey, result, 65)
+//@   ensures [payee-view] KeyAtR(payee.PublicViewKey, result, 97)
+//@   hint return [custodian-sig-local] custodianSig == crypto.SigOf(*custodianSpend, eh) && SigAtR(custodianSig, result, 289)
+//@   ensures [custodian-sig] exists eh crypto.Hash :: SigAtR(crypto.SigOf(*custodianSpend, eh), result, 289)
+// -- not stated: the analogous clauses for the payee signature at 225 and the signer signature at 161. They hold by the same
+// -- argument through one/two more appends but the solvers need 40..80 s for them (unstable), so they are left out.
